@@ -231,10 +231,7 @@ def expected_equal(case):
             return (t, tuple(sorted(at.items())), (tx or "").strip(), tuple(norm(k) for k in kids))
         return norm(a) == norm(b)
     if fam == "csv":
-        def blank(rows):
-            return all(not row for row in rows)
-        if blank(a) or blank(b):
-            return None
+        # (tables that consist of blank rows only are documents too: different numbers of blank rows are different tables)
         return a == b
     return None
 
